@@ -1,6 +1,6 @@
 (* C15 — Values are equal exactly when their encodings are; a signature binds one state.
    Statement file: every theorem is closed by `exact` of a lemma proved in Proofs/. *)
-From V Require Import Model.Channel Model.Sig Proofs.ChannelP Proofs.C15P.
+From V Require Import Model.Channel Model.Sig Proofs.ChannelP Proofs.C15P Proofs.NormalP.
 
 (* For well-formed values (the envelope inside which go-perun encodes at all: validated allocation,
    non-negative balances of at most 128 bytes, 32-byte ids, uint16 index maps, known backend),
@@ -42,6 +42,28 @@ Theorem C15_sig_binds_state : forall (S : sigscheme) rs (i j : skey S) (s s' : s
    spub S j = spub S i /\ state_equal s' s = true).
 Proof. exact sig_binds_state. Qed.
 Print Assumptions C15_sig_binds_state.
+
+(* for states that came off the wire no well-formedness hypothesis is needed: whatever the decoder
+   accepted (from ANY bytes) is well-formed (Proofs/NormalP.v), so two received states are Equal exactly
+   when their encodings - what gets signed - are identical, and a signature on one verifies for the
+   other exactly when they are Equal *)
+Theorem C15_received_states_equal_iff_enc : forall rs bs1 bs2 a b r1 r2,
+  run_flat (dec_state rs) bs1 = Ok (a, r1) -> run_flat (dec_state rs) bs2 = Ok (b, r2) ->
+  (state_equal a b = true <-> enc_state a = enc_state b).
+Proof.
+  intros rs bs1 bs2 a b r1 r2 Ha Hb.
+  exact (state_equal_iff_enc rs a b (proj1 (dec_state_normal rs bs1 a r1 Ha)) (proj1 (dec_state_normal rs bs2 b r2 Hb))).
+Qed.
+Print Assumptions C15_received_states_equal_iff_enc.
+Theorem C15_sig_binds_received_state : forall (S : sigscheme) rs (i j : skey S) bs1 bs2 s s' r1 r2,
+  run_flat (dec_state rs) bs1 = Ok (s, r1) -> run_flat (dec_state rs) bs2 = Ok (s', r2) ->
+  (verify_state S (spub S j) s' (sign_state S i s) = true <->
+   spub S j = spub S i /\ state_equal s' s = true).
+Proof.
+  intros S rs i j bs1 bs2 s s' r1 r2 Hs Hs'.
+  exact (sig_binds_state S rs i j s s' (proj1 (dec_state_normal rs bs1 s r1 Hs)) (proj1 (dec_state_normal rs bs2 s' r2 Hs'))).
+Qed.
+Print Assumptions C15_sig_binds_received_state.
 
 (* the hypotheses are met by a concrete state with locked funds and an index map *)
 Example C15_nonvacuous : state_wf_rs ex_rs ex_state = true.
